@@ -29,7 +29,7 @@ def run(ctx):
     # (4-octet AS on->off, off->on; eBGP, iBGP) must decode with the width of the current connection
     def capflip(k, seed, tag):
         recs, hok, log = ctx.go_harness(PKG, ["zz_verif_wire_test.go", "zz_verif_sess_test.go"], "TestVerifCapFlip$",
-                                        n=k, seed=seed, tag=tag)
+                                        n=k, seed=seed, tag=tag, timeout=300)
         _, st = ctx.handle_records(recs)
         for kk, v in st.items():
             stats[kk] = stats.get(kk, 0) + v
